@@ -130,15 +130,19 @@ func unwrapCmp(v ssa.Value) ssa.Value {
 
 // Facts holds the per-block must-facts of a function.
 type Facts struct {
-	p  *Prog
-	fn *ssa.Function
-	in map[*ssa.BasicBlock]FactSet
+	p   *Prog
+	fn  *ssa.Function
+	in  map[*ssa.BasicBlock]FactSet
+	sub map[*ssa.Function]*Facts
 }
 
 // MustFacts runs the forward must-dataflow: a fact holds at a block iff it is established on
 // every path from the entry (intersection over predecessors of their facts plus the fact of the
 // branch edge taken).
-func (p *Prog) MustFacts(fn *ssa.Function) *Facts {
+func (p *Prog) MustFacts(fn *ssa.Function) *Facts { return p.mustFactsFrom(fn, nil) }
+
+// mustFactsFrom is MustFacts with facts known at the function's entry (a transparent helper entered from a call site).
+func (p *Prog) mustFactsFrom(fn *ssa.Function, entry FactSet) *Facts {
 	fs := &Facts{p: p, fn: fn, in: map[*ssa.BasicBlock]FactSet{}}
 	if fn == nil || len(fn.Blocks) == 0 {
 		return fs
@@ -161,6 +165,9 @@ func (p *Prog) MustFacts(fn *ssa.Function) *Facts {
 	}
 	computed := map[*ssa.BasicBlock]bool{}
 	fs.in[fn.Blocks[0]] = FactSet{}
+	if entry != nil {
+		fs.in[fn.Blocks[0]] = entry.clone()
+	}
 	computed[fn.Blocks[0]] = true
 	changed := true
 	for iter := 0; changed && iter < 60; iter++ {
@@ -211,6 +218,20 @@ func (p *Prog) MustFacts(fn *ssa.Function) *Facts {
 
 // At returns the facts that hold when instruction in executes.
 func (fs *Facts) At(in ssa.Instruction) FactSet {
+	if g := in.Parent(); g != nil && g != fs.fn && fs.fn != nil {
+		// instruction inside a transparent helper: the facts established inside the helper (facts about the caller's
+		// values are not carried over: they speak about other SSA values)
+		if fs.sub == nil {
+			fs.sub = map[*ssa.Function]*Facts{}
+		}
+		sub, ok := fs.sub[g]
+		if !ok {
+			fs.sub[g] = fs.p.MustFacts(g) // recursion guard / fallback
+			sub = fs.p.mustFactsFrom(g, fs.entryFactsFor(g))
+			fs.sub[g] = sub
+		}
+		return sub.At(in)
+	}
 	if s, ok := fs.in[in.Block()]; ok {
 		return s
 	}
@@ -436,3 +457,48 @@ func OnlyOtherEdges(edges []Edge) EdgeFilter { return ForbidEdges(edges) }
 
 // EdgeFactsFor returns the facts that hold when control flows pred -> succ.
 func (fs *Facts) EdgeFactsFor(pred, succ *ssa.BasicBlock) FactSet { return fs.edgeFacts(pred, succ) }
+
+// entryFactsFor: the facts that hold at every transparent call site of g inside fs.fn, re-expressed over g's parameters
+// (a fact about an argument becomes a fact about the parameter; facts about other caller values are dropped, constants
+// are kept).
+func (fs *Facts) entryFactsFor(g *ssa.Function) FactSet {
+	chains := transparentChains(fs.fn, g)
+	var out FactSet
+	for i, ch := range chains {
+		call := ch[len(ch)-1]
+		at := fs.At(call)
+		tr := FactSet{}
+		args := call.Common().Args
+		mapv := func(v ssa.Value) (ssa.Value, bool) {
+			if v == nil {
+				return nil, true
+			}
+			if _, ok := v.(*ssa.Const); ok {
+				return v, true
+			}
+			for ai, a := range args {
+				if ai < len(g.Params) && sameValue(a, v) {
+					return g.Params[ai], true
+				}
+			}
+			return nil, false
+		}
+		for _, f := range at {
+			x, okx := mapv(f.X)
+			y, oky := mapv(f.Y)
+			if okx && oky && x != nil {
+				tr.add(Fact{Op: f.Op, X: x, Y: y})
+			}
+		}
+		if i == 0 {
+			out = tr
+		} else {
+			for k := range out {
+				if _, ok := tr[k]; !ok {
+					delete(out, k)
+				}
+			}
+		}
+	}
+	return out
+}
